@@ -119,6 +119,43 @@ func descr(v ssa.Value, d int) string {
 		}
 		return descr(t.X, d+1) + "." + st.Field(t.Field).Name()
 	case *ssa.Extract:
+		// a (value, error) helper of internal/state with one success return: describe what it returns,
+		// with its parameters bound to the arguments (the helper is transparent to the key's meaning)
+		if call, ok := t.Tuple.(*ssa.Call); ok && d < 10 {
+			if sc := call.Call.StaticCallee(); sc != nil && len(sc.Blocks) > 0 && sc.Parent() == nil && strings.HasSuffix(engine.PkgPathOf(sc), "internal/state") && !strings.HasPrefix(engine.BaseName(sc), "buildSearchOp") {
+				var succ *ssa.Return
+				n := 0
+				for _, r := range engine.Returns(sc) {
+					if lr := engine.LastResult(r); lr != nil && engine.IsNilConst(lr) && len(r.Results) > t.Index {
+						succ = r
+						n++
+					}
+				}
+				if n == 1 && types.Identical(sc.Signature.Results().At(sc.Signature.Results().Len()-1).Type(), types.Universe.Lookup("error").Type()) {
+					saved := map[*ssa.Parameter]ssa.Value{}
+					had := map[*ssa.Parameter]bool{}
+					for i, p := range sc.Params {
+						if i < len(call.Call.Args) {
+							if old, ok := descrCtx[p]; ok {
+								saved[p], had[p] = old, true
+							}
+							descrCtx[p] = call.Call.Args[i]
+						}
+					}
+					out := descr(succ.Results[t.Index], d+1)
+					for i, p := range sc.Params {
+						if i < len(call.Call.Args) {
+							if had[p] {
+								descrCtx[p] = saved[p]
+							} else {
+								delete(descrCtx, p)
+							}
+						}
+					}
+					return out
+				}
+			}
+		}
 		return descr(t.Tuple, d+1) + "#" + fmt.Sprint(t.Index)
 	case *ssa.Convert:
 		return "conv(" + descr(t.X, d+1) + ")"
@@ -397,6 +434,7 @@ func c15(c *Ctx) {
 
 	// type switch cases of buildSearchOp: TypeAssert(commaok) chain -> callee
 	caseCallee := map[string]*ssa.Function{}
+	caseFedKey := map[string]bool{} // the builder called in the case receives the asserted key (or a field of it)
 	for _, b := range bso.Blocks {
 		for _, in := range b.Instrs {
 			ta, ok := in.(*ssa.TypeAssert)
@@ -415,9 +453,39 @@ func c15(c *Ctx) {
 			if okBlock == nil {
 				continue
 			}
+			var fromKey func(v ssa.Value, d int) bool
+			fromKey = func(v ssa.Value, d int) bool {
+				if d > 4 {
+					return false
+				}
+				switch t := v.(type) {
+				case *ssa.TypeAssert:
+					return t == ta
+				case *ssa.Extract:
+					return t.Tuple == ssa.Value(ta) && t.Index == 0
+				case *ssa.UnOp:
+					if fa, ok := t.X.(*ssa.FieldAddr); ok {
+						return fromKey(fa.X, d+1)
+					}
+				case *ssa.Field:
+					return fromKey(t.X, d+1)
+				case *ssa.ChangeType:
+					return fromKey(t.X, d+1)
+				case *ssa.MakeInterface:
+					return fromKey(t.X, d+1)
+				}
+				return false
+			}
 			for _, cs := range callsInBlockClosure(okBlock) {
-				if sc := cs.Common().StaticCallee(); sc != nil && strings.HasPrefix(engine.ShortName(sc), "buildSearchOp") {
-					caseCallee[nt.Obj().Name()] = sc
+				sc := cs.Common().StaticCallee()
+				if sc == nil || !strings.HasPrefix(engine.ShortName(sc), "buildSearchOp") {
+					continue
+				}
+				caseCallee[nt.Obj().Name()] = sc
+				for _, a := range cs.Common().Args {
+					if fromKey(a, 0) {
+						caseFedKey[nt.Obj().Name()] = true
+					}
 				}
 			}
 		}
@@ -427,7 +495,9 @@ func c15(c *Ctx) {
 		key := "buildSearchOp|case " + name
 		callee := caseCallee[name]
 		want := "buildSearchOp" + strings.TrimPrefix(name, "SearchKey")
-		ok := callee != nil && strings.EqualFold(engine.ShortName(callee), want)
+		// the builder is the one for this key: it is handed the asserted key value itself (the type checker then
+		// guarantees it is a builder for that key type) or one of its fields, or follows the naming convention
+		ok := callee != nil && (caseFedKey[name] || strings.EqualFold(engine.ShortName(callee), want))
 		got := "no case"
 		if callee != nil {
 			got = "calls " + engine.ShortName(callee)
